@@ -54,6 +54,42 @@ def classes_named(index, names, ctx, rule):
     return out
 
 
+def weighting_of(index, agg_name: str):
+    """The weighting class an aggregator is built on, found by construction: the subclass of the weighting base that the
+    aggregator's module defines and its __init__ instantiates (whatever it is called)."""
+    import ast
+
+    cls = next((c for c in index.classes.values() if c.name == agg_name and c.module.name.startswith("torchjd.aggregation")), None)
+    if cls is None:
+        return None
+    wbase = index.find_class("torchjd.aggregation.bases._Weighting")
+    ini = cls.methods.get("__init__")
+    made = []
+    if ini is not None:
+        for n in ast.walk(ini.node):
+            if isinstance(n, ast.Call) and isinstance(n.func, ast.Name):
+                c = index.resolve_name(cls.module, n.func.id)
+                if hasattr(c, "mro") and (wbase is None or wbase in c.mro) and c.module is cls.module:
+                    made.append(c)
+    return made[0] if len({id(c) for c in made}) == 1 else None
+
+
+def weighted_base(index):
+    """The common base of the weighting-based aggregators (`_WeightedAggregator` today): the class of the bases module that the
+    public aggregator Mean derives from directly."""
+    mean = next((c for c in index.classes.values() if c.name == "Mean" and c.module.name.startswith("torchjd.aggregation")), None)
+    if mean is None:
+        raise AnalysisError("anchor vanished: aggregator Mean")
+    for c in mean.mro[1:]:
+        if c.module.name.endswith("aggregation.bases") and c.name != "Aggregator":
+            return c
+    raise AnalysisError("anchor vanished: the base class of the weighting-based aggregators")
+
+
+def in_weighting(e, wcls, method="forward") -> bool:
+    return wcls is not None and e["function"].startswith(wcls.qualname + "." + method)
+
+
 def returning(run: ForwardRun):
     return [r for r in run.results if r.kind == "return"]
 
